@@ -278,6 +278,16 @@ def render_all():
     invalidates the proofs that depend on that area"""
     common.load_repo()
     out = {}
+    # area modules contributed separately: harness/extract_parts/<x>.py with NAME and tables()
+    import glob
+    import importlib
+    for path in sorted(glob.glob(os.path.join(os.path.dirname(os.path.abspath(__file__)), 'extract_parts', '*.py'))):
+        mod = os.path.basename(path)[:-3]
+        if mod.startswith('_'):
+            continue
+        m = importlib.import_module('harness.extract_parts.' + mod)
+        out[m.NAME] = ('-- GENERATED by /verif/harness/extract_parts/%s.py from the /repo working tree -- do not edit.\n'
+                       'namespace HotXL.Generated\n' % mod + '\n'.join(m.tables()) + '\nend HotXL.Generated\n')
     for fn in SECTIONS:
         name = FILES.get(fn.__name__, fn.__name__.title().replace('_', ''))
         body = fn()
